@@ -790,15 +790,15 @@ def check_root_selection(out, cov):
                 pts = []
             bad = None
             for q in pts:
-                two = abs(q['rho_liquid'] - q['rho_vapor']) > 1e-3 * q['rho_liquid']
+                two = abs(q['ref_liquid'] - q['ref_vapor']) > 1e-3 * q['ref_liquid']
                 if not two: continue
                 close = lambda x, y: abs(x - y) <= 1e-6 * abs(y)
                 if vname == 'None':
-                    want = q['rho_vapor'] if q['g_liquid'] > q['g_vapor'] else q['rho_liquid']
+                    want = q['ref_vapor'] if q['g_ref_liquid'] > q['g_ref_vapor'] else q['ref_liquid']
                     if not close(q['rho_none'], want): bad = q
-                elif vname == 'Vapor' and not q['rho_vapor'] < 0.5 * q['rho_liquid']: bad = q
-                elif vname == 'Liquid' and not q['rho_liquid'] > 2.0 * q['rho_vapor']: bad = q
-                elif vname == 'InitialDensity' and not (close(q['rho_init_near_liquid'], q['rho_liquid']) and close(q['rho_init_near_vapor'], q['rho_vapor'])): bad = q
+                elif vname == 'Vapor' and not close(q['rho_vapor'], q['ref_vapor']): bad = q
+                elif vname == 'Liquid' and not close(q['rho_liquid'], q['ref_liquid']): bad = q
+                elif vname == 'InitialDensity' and not (close(q['rho_init_near_liquid'], q['ref_liquid']) and close(q['rho_init_near_vapor'], q['ref_vapor'])): bad = q
                 if bad: break
             cov['traces_validated_against_impl'] = cov.get('traces_validated_against_impl', 0) + 1
             if bad is None:
